@@ -215,6 +215,10 @@ def check_card(eng, run):
         insts.append((m.classes["_DataSenderImpl"].methods["send"], {"make_datagram"}, {"send"}, "make_datagram", "send"))
     srv = db.cls("lowlevel.api_async.servers.datagram.AsyncDatagramServer")
     insts.append((srv.methods["send_packet_to"], {"make_datagram"}, {"send_to"}, "make_datagram", "send_to"))
+    # the UDP clients: one send_packet() hands the packet to the endpoint exactly once and checks the socket state once - a 'second
+    # chance' after a reported socket error puts a second copy of a datagram that had already left on the wire
+    for q in ("clients.udp:UDPNetworkClient.send_packet", "clients.async_udp:AsyncUDPNetworkClient.send_packet"):
+        insts.append((db.fn(q), {"send_packet"}, {"check_real_socket_state"}, None, "check_real_socket_state"))
     for fn, first, second, prod, cons in insts:
         an = Card(eng, first, second)
         out = Interp(an, fn).run()
@@ -223,7 +227,7 @@ def check_card(eng, run):
             run.finding("C05.card", fn, _stmt_at(fn, tr[-1]) if tr else fn.node, f"a normal path performs {f[0]} x {sorted(first)} and {f[1]} x {sorted(second)} (must be exactly 1 and 1): datagrams would be merged, split, dropped or duplicated", tr)
         for n in an.loop_sites[:1]:
             run.finding("C05.card", fn, _stmt_at(fn, n.lineno), "transport/protocol call of the datagram path inside a loop")
-        ok_flow, why = _single_binding_flow(fn, prod, cons)
+        ok_flow, why = _single_binding_flow(fn, prod, cons) if prod is not None else (True, "count only")
         if not ok_flow:
             run.finding("C05.card", fn, fn.node, f"the value handed to {cons}() is not exactly the value produced by {prod}(): {why}")
         run.ob("C05.card", fn.module.name.split(".")[-3] + "." + fn.short, not bad and not an.loop_sites and ok_flow, paths=len(out.ret), via=why if ok_flow else None)
@@ -370,6 +374,25 @@ def check_err(eng, run):
             run.finding("C05.err", sfn, _stmt_on_path(sfn, tr), f"`{t}` (input-dependent) can escape {ci.name}.deserialize: the datagram receive reports RuntimeError('... crashed') instead of exactly one parse error", tr)
         run.ob("C05.err", f"{ci.name}.deserialize:only-DeserializeError", not sbad, escaping=sorted(stoks))
     run.floor("C05.err one-shot deserializers", n, 15)
+    # every error of the DeserializeError family raised by the one-shot deserialize() becomes the datagram's parse error: no handler of
+    # build_packet_from_datagram() turns one of them (the incremental subclass a default deserialize() lets through) into something else
+    bp = db.cls("protocol.DatagramProtocol").methods.get("build_packet_from_datagram")
+    if bp is None:
+        raise AnalysisError("anchor vanished: DatagramProtocol.build_packet_from_datagram")
+    nh = 0
+    for t in [x for x in own_nodes(bp.node) if isinstance(x, ast.Try)]:
+        for h in t.handlers:
+            names = eng.lattice.handler_classes(bp, h.type) if h.type is not None else []
+            if names and all(lat.is_sub(nm, "easynetwork.exceptions.DeserializeError") or nm.split(".")[-1] in ("DeserializeError", "IncrementalDeserializeError", "LimitOverrunError") for nm in names):
+                nh += 1
+                raises = [r for b in h.body for r in ast.walk(b) if isinstance(r, ast.Raise)]
+                okh = bool(raises) and all(r.exc is not None and "DatagramProtocolParseError" in ast.unparse(r.exc) for r in raises)
+                if not okh:
+                    run.finding("C05.err", bp, h, f"a `{ast.unparse(h.type)}` raised by the serializer's deserialize() is not reported as DatagramProtocolParseError: a malformed datagram "
+                                "surfaces as another exception (the endpoint reports '... crashed') instead of exactly one parse error")
+                run.ob("C05.err", f"{bp.short}:{ast.unparse(h.type)}:becomes-parse-error", okh)
+    if nh == 0:
+        raise AnalysisError("anchor vanished: DeserializeError handler of DatagramProtocol.build_packet_from_datagram")
     fn = db.cls("lowlevel.api_async.servers.datagram.AsyncDatagramServer").methods.get("__parse_datagram")
     if fn is None:
         raise AnalysisError("anchor vanished: AsyncDatagramServer.__parse_datagram")
